@@ -97,6 +97,8 @@ pub fn build(line: &str) -> Built {
                 vars.push(r);
             }
             "enum" | "enumall" | "first" | "min" | "max" => entry = t.iter().map(|s| s.to_string()).collect(),
+            // production configuration: root LP step and optimisation fast path ON (used by C16's two-process family)
+            "prod" => { selen::verif_hooks::set_root_lp_disabled(false); selen::verif_hooks::set_fast_path_disabled(false); }
             k => panic!("bad post {}", k),
         }
     }
